@@ -106,6 +106,8 @@ def run_case(idx, rng, tier, ctx):
 
 def _run(case, slice_name, wd, res, cnt):
     def viol(key, msg, pysrc=None, detail=None):
+        if slice_name != 'core':
+            key = ':'.join(key.split(':')[:2])      # one key per (stage, gated mechanism)
         res['violations'].append({'key': f'{key}:{slice_name}', 'msg': msg[:600],
                                   'witness': {'kernel': case.kernel, 'python': pysrc, 'detail': detail}})
 
@@ -114,18 +116,24 @@ def _run(case, slice_name, wd, res, cnt):
     except diffexec.BuildError as e:
         res['inconclusive'] = 'generator defect (original does not build): ' + str(e)[-400:]
         return
+    ro = diffexec.run(oexe, stdin=case.stdins[0], timeout=tplab.RUN_TIMEOUT)
+    cnt['program_runs'] = cnt.get('program_runs', 0) + 1
+    if ro['rc'] != 0 or ro['san']:
+        res['inconclusive'] = f"generator defect (original does not run clean): rc={ro['rc']} {ro['san'][:2]} {ro['err'][-300:]}"
+        return
     refs = []
-    for q, sin in enumerate(case.stdins):
-        ro = diffexec.run(oexe, stdin=sin, timeout=tplab.RUN_TIMEOUT)
-        cnt['program_runs'] = cnt.get('program_runs', 0) + 1
-        if ro['rc'] != 0 or ro['san']:
-            res['inconclusive'] = f"generator defect (original does not run clean): input {q} rc={ro['rc']} {ro['san'][:2]} {ro['err'][-300:]}"
-            return
-        try:
-            refs.append([(n, t, tplab._num(t, v)) for n, t, v in tplab.parse_output(ro['out'])])   # pylint: disable=protected-access
-        except ValueError as e:
-            res['inconclusive'] = f'unparsable original output: {e}'
-            return
+    try:
+        for n, t, v in tplab.parse_output(ro['out']):
+            if n == '===':
+                refs.append([])
+            else:
+                refs[-1].append((n, t, tplab._num(t, v)))       # pylint: disable=protected-access
+    except (ValueError, IndexError) as e:
+        res['inconclusive'] = f'unparsable original output: {e}'
+        return
+    if len(refs) != len(case.inputs):
+        res['inconclusive'] = f'original printed {len(refs)} result sets for {len(case.inputs)} input sets'
+        return
     try:
         pysrc = tplab.transpile_py(case, wd / 'gen')
         cnt['translations'] = cnt.get('translations', 0) + 1
